@@ -1,6 +1,7 @@
 """C08 -- an insecure shared $topdir/.Trash is never used, for writing, reading or purging.
 
-E1 product: .Trash state x populated .Trash/$uid x the five commands x volume set."""
+E1 product: .Trash state x populated .Trash/$uid x the five commands x volume set; second stage: one failing call
+(every operation of the fault-free trace x every errno that reports a failure) for the insecure states."""
 import os
 import sys
 
@@ -10,13 +11,16 @@ from ..explore import faults, product
 PID = 'C08'
 LEVEL = 'exploration'
 TECHNIQUE = ('bounded-exhaustive enumeration (model checking of the implementation): product of $topdir/.Trash states x commands x '
-             'volume sets on the real scripts under a virtual mount table; subtree-unchanged / not-listed oracle with a secure control group')
+             'volume sets on the real scripts under a virtual mount table; subtree-unchanged / not-listed oracle with a secure control group; '
+             'plus exhaustive single-fault injection (deviation bound 1) over the traces of the insecure states')
 LEVEL_TEXT = ('every state of $topdir/.Trash (sticky dir, non-sticky dir, symlink to sticky / non-sticky dir, regular file, absent) with '
               'a populated .Trash/$uid is presented to each of the five commands; insecure => the subtree is byte-identical afterwards and '
-              'none of its entries is listed, offered, restored or purged; secure control => it IS used (no vacuous pass)')
+              'none of its entries is listed, offered, restored or purged; secure control => it IS used (no vacuous pass); the two never-used clauses are also '
+              'checked when any single file-system call of the run fails (EACCES, EIO, ENAMETOOLONG, ...; not ENOENT / ENOTDIR, which describe another world)')
 LEVEL_NOTE = 'trusted: shim mount table / psutil substitute; ownership checks of .Trash/$uid itself are not part of the property'
 RULE = ('.Trash state (8, incl. mode 2777 and 0700) x command (put, list, restore+reply, empty, empty 0, rm *, rm exact, list --all-users and empty --all-users with three accounts in /etc/passwd, list --size, list --files, put with .Trash-uid blocked by a regular file) x volumes (v1 only; v1 insecure + v2 secure; a secure v0 listed before v1) x uid '
-        '(0, 1000); non-trivial = the command examined the volume (stat of .Trash seen in the trace); distinct = outcome class x state x command')
+        '(0, 1000); non-trivial = the command examined the volume (stat of .Trash seen in the trace); distinct = outcome class x state x command; '
+        'fault stage: insecure state (7) x command (5 quick / 11 thorough) on one volume x every operation of the fault-free trace x every failure errno of that call, one fault per run')
 STATES = ['sticky', 'nonsticky', 'nonsticky-uidlink', 'nonsticky-setgid', 'nonsticky-private', 'symlink-sticky', 'symlink-nonsticky', 'file', 'absent']
 CMDS = ['put', 'list', 'restore', 'empty', 'empty0', 'rm-star', 'rm-exact', 'put-then-insecure', 'list-all-users', 'empty-all-users', 'list-size', 'list-files', 'put-alt-blocked', 'restore-empty-td']
 VOLS = ['v1', 'v1+v2', 'v1-sticky-topdir', 'v0+v1']
